@@ -1501,6 +1501,70 @@ def fnd1(units, R, fn_name='cJSONUtils_FindPointerFromObjectTo'):
          key='census')
 
 
+# ---- ORD2: a position in a member list does not survive the sorting of that list -----------------------------------------------------
+
+def ord2(units, R, floor=1):
+    """sort_object(X) re-links the members of X: the member that was first is somewhere in the middle afterwards.  A local that was set
+    to X->child (or to a member reached from it) before the call and is read after it without being set again walks the list from
+    the wrong place - every member that now sorts in front of it is passed over."""
+    u = units['cJSON_Utils.c']
+    SORTERS = {'sort_object', 'cJSONUtils_SortObject', 'cJSONUtils_SortObjectCaseSensitive'}
+    n = 0
+    for fn in u.function_list:
+        if fn.body is None or fn.name in SORTERS or fn.name == 'sort_list':
+            continue
+        sorts = [c for c in fn.calls() if callee_name(c) in SORTERS and c.get('args')]
+        if not sorts:
+            continue
+        cfg = fn.cfg()
+        defs = []           # (cfg node id, decl id, name, container expression text)
+        for m in cfg.nodes:
+            if m.kind == 'decl' and m.decl is not None and 'init' in m.decl:
+                r = strip_casts(m.decl['init'])
+                base = r
+                while base.get('k') == 'mem' and base['f'] in ('next', 'prev'):
+                    base = strip_casts(base['b'])
+                if base.get('k') == 'mem' and base['f'] == 'child':
+                    defs.append((m.id, m.decl['d'], m.decl['n'], expr_str(strip_casts(base['b']))))
+            for ev in node_effects(m):
+                if ev.kind == 'store' and ev.node['op'] == '=' and is_ref(ev.lhs):
+                    r = strip_casts(ev.node['r'])
+                    base = r
+                    while base.get('k') == 'mem' and base['f'] in ('next', 'prev'):
+                        base = strip_casts(base['b'])
+                    if base.get('k') == 'mem' and base['f'] == 'child':
+                        defs.append((m.id, strip_casts(ev.lhs)['d'], strip_casts(ev.lhs)['n'], expr_str(strip_casts(base['b']))))
+        for c in sorts:
+            n += 1
+            X = expr_str(strip_casts(c['args'][0]))
+            cn = node_containing(cfg, c)
+            bad = None
+            for (did, d, name, cont) in defs:
+                if cont != X:
+                    continue
+                redefs = {m.id for m in cfg.nodes for ev in node_effects(m)
+                          if ev.kind in ('store', 'incdec') and is_ref(ev.lhs) and strip_casts(ev.lhs)['d'] == d and m.id != did}
+                redefs |= {m.id for m in cfg.nodes if m.kind == 'decl' and m.decl is not None and m.decl.get('d') == d and m.id != did and 'init' in m.decl}
+                # the definition reaches the sort ...
+                if cn.id not in (cfg.reachable(did, stop=redefs) | {did}):
+                    continue
+                # ... and the variable is read behind the sort before it is set again
+                region = cfg.reachable(cn.id, stop=redefs)
+                for m in region:
+                    nd = cfg.nodes[m]
+                    root = nd.expr if nd.expr is not None else (nd.decl.get('init') if nd.kind == 'decl' and nd.decl else None)
+                    if root is None or m == cn.id:
+                        continue
+                    lhs_ids = {strip_casts(x['l']).get('id') for x in walk(root) if x.get('k') == 'bin' and x.get('op') == '='}
+                    if any(x.get('k') == 'ref' and x.get('d') == d and x.get('id') not in lhs_ids for x in walk(root)):
+                        bad = bad or (name, nd.line)
+            R.ob('ORD2', fn, c, 'no position in the member list of %s is kept across its sorting' % X, bad is None,
+                 'cursors are taken behind the call' if bad is None else
+                 '%s was set from %s->child before the call and is read at line %d behind it: the walk starts in the middle of the sorted '
+                 'list and passes over every member that now sorts in front' % (bad[0], X, bad[1]), key='sort:%s' % X)
+    R.floor('ORD2', 'calls of the member sorter', n, floor)
+
+
 # ---- DIG1: digit-counting loops agree with their radix ----------------------------------------------------------------------
 
 def dig1(units, R, unit_names=('cJSON.c', 'cJSON_Utils.c')):
